@@ -135,6 +135,9 @@ async def session(conf, seed, events, stats, n, restart=False):
                     await asyncio.sleep(0.05)
                 link.flush()
                 await asyncio.sleep(0.05)
+        # the script is over: from here on the link passes everything (a reply to a datagram released by the last flush must
+        # not be held back behind datagrams that will never come), and what it still holds is released
+        link.calm = True
         link.flush()
         await s.w.drain(0, 2.0)
         link.flush()
@@ -163,7 +166,7 @@ async def session(conf, seed, events, stats, n, restart=False):
                     await asyncio.sleep(0.03)
             link.flush()
             await s.w.drain(0, 2.0)
-        await s.end(events, {"kind": "c11-link", "seed": seed, "n": n})
+        await s.end(events, {"kind": "c11-link", "seed": seed, "n": n, "restart": bool(restart)})
         link.close()
         events.append({"ev": "Reset"})
         events.append({"ev": "Note", "conf": conf.label, "what": "process"})
@@ -186,6 +189,22 @@ def run(c, tier):
             asyncio.run(session(conf, vlib.seed() * 10000 + ci * 100 + r, events, stats, n, restart=(r % 2 == 1)))
             c.add("link_sessions", 1)
     c.cov["link_actions"] = stats
-    for what, seg in c02.judge(c, "c11", events, prop="C11"):
+
+    def rerun(label, desc):
+        """Absence within a bound (a datagram owed at Settle that has not arrived yet): the same session is run twice more in
+        fresh processes; the absence is reported only if neither run is accepted (DESIGN 2.7)."""
+        import os
+        conf = m[label]
+        for k in range(2):
+            ev, st = [], {}
+            asyncio.run(session(conf, desc["seed"], ev, st, desc["n"], restart=desc.get("restart", False)))
+            p = os.path.join(vlib.WORK, "c11", "rerun.ndjson")
+            e2e.write_ndjson(p, ev)
+            acc, matched, r = vlib.validate_trace("TraceUdp", "TraceUdp.cfg", p)
+            if acc:
+                return True
+        return False
+
+    for what, seg in c02.judge(c, "c11", events, prop="C11", rerun=rerun):
         c.violation("session over a link that duplicates / delays / replays datagrams: " + what, {"history": seg})
     c.assumptions.append("end to end: ids stay inside the 8128-wide window (sessions of up to 120 datagrams); the window's far edge is covered by the replay on the real filter")
